@@ -655,6 +655,58 @@ func wireSequenceFrame(w *World, r *Report, prop string, elems map[string]bool) 
 	r.floor(rule, 100)
 }
 
+// */model-frame: C14's write-effect scan, kept for the properties whose subject the written storage is. Every generator reads the one
+// parsed model, so a generator (or a helper it calls) that rewrites a part of it changes what the targets generated after it emit.
+// Which property that breaks depends on what is rewritten: rx selects the written model members by their description
+// ("Field.Attr", "Packet.MatchFields", ...), elems the element types of rewritten sequences. Only direct writes are kept - a call
+// that hands shared storage to a writing callee is reported at the callee's own write.
+var (
+	frameWire     = regexp.MustCompile(`\b(Field\.(Attr|IsRepeat|LenAttr|Name)|[A-Za-z]*FieldAttribute\.[A-Za-z]+|LengthOfAttribute\.[A-Za-z]+|Padding\.[A-Za-z]+|Configuration\.[A-Za-z]+|MatchPair\.[A-Za-z]+|Packet\.(Fields|LengthField|MatchFields|FieldMap|Name)|BinaryModel\.Config)\b`)
+	framePackets  = regexp.MustCompile(`\bBinaryModel\.(Packets|PacketsMap|RootPacket|MetaDataMap)\b|\bPacket\.(IsRoot|Fields|Name)\b|\bField\.Attr\b`)
+	frameLength   = regexp.MustCompile(`Length|LenAttr|\bField\.Attr\b|\bPacket\.Fields\b`)
+	frameMatch    = regexp.MustCompile(`Match|\bField\.Attr\b`)
+	frameCheckSum = regexp.MustCompile(`CheckSum|\bField\.Attr\b`)
+)
+
+func wireModelFrame(w *World, r *Report, prop string, rx *regexp.Regexp, also *regexp.Regexp, elems map[string]bool, why string) {
+	rule := prop + "/model-frame"
+	subjects, err := c14Subjects(w)
+	if err != nil {
+		r.fatal("%v", err)
+		return
+	}
+	mparams := mutatedParams(w)
+	nw := 0
+	for _, fn := range subjects {
+		var bad []frameFinding
+		for _, f := range scanFrame(w, fn, mparams, &nw) {
+			if f.rule != "C14/model-frame" || strings.HasPrefix(f.what, "passes storage") {
+				continue
+			}
+			hit := rx != nil && rx.MatchString(f.what) && (also == nil || also.MatchString(f.what))
+			if !hit && f.typ != nil && elems[seqElemName(f.typ)] {
+				hit = true
+			}
+			if hit {
+				bad = append(bad, f)
+			}
+		}
+		if len(bad) == 0 {
+			r.pass(rule, fnKey(fn), w.pos(fn.Pos()), "")
+			continue
+		}
+		seen := map[string]bool{}
+		for _, f := range bad {
+			if seen[f.what] {
+				continue
+			}
+			seen[f.what] = true
+			r.fail(rule, fnKey(fn)+": "+f.what, f.pos, why)
+		}
+	}
+	r.floor(rule, 100)
+}
+
 func seqElemName(t types.Type) string {
 	for i := 0; i < 3; i++ {
 		switch u := t.Underlying().(type) {
